@@ -4,3 +4,6 @@ package proxycore
 
 // verifTrace is a hook of the verification harness; it does nothing unless built with -tags verif.
 func verifTrace(kind string, table interface{}, stream int, request interface{}) {}
+
+// verifPoint is a hook of the verification harness; it does nothing unless built with -tags verif.
+func verifPoint(name string) {}
